@@ -378,7 +378,8 @@ Proof.
   - unfold handle_touch. destruct (negb _); [intros H; inversion H; subst; exact Logic.I|].
     destruct (get_or_create c sid) as [s c1| |code] eqn:G; intros H; inversion H; subst; try exact S; try exact Logic.I.
     apply (goc_sim _ _ _ _ _ S G).
-  - intros H; inversion H; subst. unfold local_open. destruct (sget sid (c_streams c)) eqn:G; [exact S|].
+  - intros H; inversion H; subst. unfold local_open. destruct (negb (can_send c sid)); [exact S|]. destruct (sget sid (c_streams c)) eqn:G; [exact S|].
+    destruct (negb (Bool.eqb (client_initiated sid) (c_client c))); [exact S|].
     destruct S. constructor; cbn; auto.
     + intros k s1. rewrite sget_app1. destruct (sget k (c_streams c)) eqn:Gk; [intros H1; inversion H1; subst; apply s_live0, Gk|].
       destruct (sid =? k) eqn:E; [|discriminate]. intros H1 Hd; inversion H1; subst. assert (k = sid) by lia. subst k. cbn.
